@@ -131,6 +131,11 @@ func splitIntoChunks(txt string, numberOfBatches int) []string {
 		for nextPointer < len(txt) && !utf8.RuneStart(txt[nextPointer]) {
 			nextPointer++
 		}
+		if nextPointer < len(txt) && txt[nextPointer] == '\n' && txt[nextPointer-1] == '\r' {
+			// Don’t divide a CRLF line ending either: a blank line would
+			// otherwise look like a significant one (because of the trailing `\r`).
+			nextPointer++
+		}
 		if nextPointer > len(txt) {
 			batches[i] = txt[pointer:]
 			break
